@@ -1,5 +1,5 @@
-"""C01 - grace period waits for pre-existing readers: proofs (Gp/*.v); refinement check of the real urcu.c (memb) traces
-against the executable model; timing + litmus oracles on memb (membarrier / fallback) and mb builds."""
+"""C01 - grace period waits for pre-existing readers: proofs (Gp/*.v); refinement check of the real urcu.c traces (memb and mb builds)
+against the executable models; timing + litmus oracles on memb (membarrier / fallback) and mb builds."""
 from vlib import *
 import gp_common as G
 FILES = ['src/urcu.c', 'src/urcu-wait.h', 'include/urcu/static/urcu-common.h', 'include/urcu/static/urcu-memb.h', 'include/urcu/static/urcu-mb.h',
@@ -7,8 +7,8 @@ FILES = ['src/urcu.c', 'src/urcu-wait.h', 'include/urcu/static/urcu-common.h', '
 PROGS = ['(r)(q)/SS', '(r)(q)/(r)(q)/SS', '(r(q))/(q)(r)/S/S', '((r)q)(r)/S(r)/S', '(q)(q)(q)/(r)(r)/SS', '(r)/(q)/(rq)/SS']
 QPROGS = ['FNr/SS', 'rFNrQq/SS', 'rQqFNr/qFNrQq/SS', 'rQrQr/FNq/S/S', 'qFNqFNq/rQr/SS', 'rFNr/S/qQq/S']
 TRUSTED = ['Coq 8.16.1 kernel; no axioms; no native_compute',
-           'extraction: ExtrOcamlBasic only; ocaml/gp_driver.ml',
-           'projection of implementation events onto model actions: tools/gp_common.py project_memb (trusted, 30 lines)',
+           'extraction: ExtrOcamlBasic only; ocaml/gp_driver.ml, ocaml/gpmb_driver.ml',
+           'projection of implementation events onto model actions: tools/gp_common.py project_memb / project_mb (trusted, 30 lines each)',
            'harness: verif_hooks.h, sched.c (store buffers; membarrier = drain every buffer)',
            'modelled: sys_membarrier drains every running thread\'s store buffer; mutexes; registry list surgery and waiter batching are not in the model '
            '(the projection places the grace-period start at the leader\'s urcu_move_waiters); static registry during a run (dynamic registration: C15)']
@@ -37,11 +37,11 @@ def gen(ctx, n, progs):
         out.append((prog, bursty(ctx.rng, th, lo=40, hi=400, flush=ctx.rng.choice([0.0, 0.02, 0.1, 0.3]), means=(1, 3, 10, 30, 60))))
     return out
 
-def refine(ctx, driver, cases, raws, what):
+def refine(ctx, driver, cases, raws, what, project=None):
     """feed the projected traces to the model interpreter"""
     blocks = []
     for (p, s), raw in zip(cases, raws):
-        blocks += G.project_memb(raw, p.count('/') + 1)
+        blocks += (project or G.project_memb)(raw, p.count('/') + 1)
     rc, out, err = sh([driver], inp='\n'.join(blocks) + '\n', timeout=600)
     res = out.splitlines(); nrej = 0
     if len(res) != len(cases): ctx.fail('harness', 'gp_driver output', 'expected %d verdicts, got %d: %s' % (len(cases), len(res), err[-300:])); return
@@ -55,7 +55,7 @@ def refine(ctx, driver, cases, raws, what):
     ctx.cov['model_actions_checked'] = ctx.cov.get('model_actions_checked', 0) + nact
     ctx.cov['disagreements'] = ctx.cov.get('disagreements', 0) + nrej
 
-def run_flavor(ctx, name, defs, progs, n, driver=None, src='scen_gp.c', orc=None):
+def run_flavor(ctx, name, defs, progs, n, driver=None, src='scen_gp.c', orc=None, project=None, model='GpExec (memb model)'):
     orc = orc or G.oracle
     impl = G.build(ctx, name, defs, src)
     if not impl: return
@@ -75,7 +75,7 @@ def run_flavor(ctx, name, defs, progs, n, driver=None, src='scen_gp.c', orc=None
     ctx.cov['evaluations'] += len(cases); ctx.cov['distinct_nontrivial'] += len(distinct)
     ctx.cov['oracle_violations'] = ctx.cov.get('oracle_violations', 0) + nor
     ctx.cov['input_distribution'][name] = {'cases': len(cases)}
-    if driver: refine(ctx, driver, cases, raws, 'GpExec (memb model) accepts the trace of src/urcu.c (%s)' % name)
+    if driver: refine(ctx, driver, cases, raws, '%s accepts the trace of src/urcu.c (%s)' % (model, name), project)
 
 def run(ctx):
     ctx.cov['source_hash'] = source_hash(FILES)
@@ -84,11 +84,12 @@ def run(ctx):
     n = 300 if ctx.quick() else 4000
     run_flavor(ctx, 'scen_gp_memb', [], PROGS, n, driver)
     run_flavor(ctx, 'scen_gp_memb_nomembarrier', ['-DNO_MEMBARRIER'], PROGS, n // 2)
-    run_flavor(ctx, 'scen_gp_mb', ['-DFLAVOR_MB'], PROGS, n // 2)
+    mbdriver = build_model_driver(ctx, 'gpmb', 'ExtractGpMb.v', 'gpmb_driver.ml')
+    run_flavor(ctx, 'scen_gp_mb', ['-DFLAVOR_MB'], PROGS, n // 2, mbdriver, project=G.project_mb, model='GpMbExec (mb model)')
     run_flavor(ctx, 'scen_qsbr', [], QPROGS, n, src='scen_qsbr.c', orc=G.qsbr_oracle)
     return finish(ctx, trusted=TRUSTED, rule='Step/Flush schedules = corpus + parking sweeps (each thread frozen after k steps while the others complete 1 or 2 whole operations, '
                   'store buffers flushed eagerly or not) + bursty random (flush probability 0-0.3); every scenario has >= 2 consecutive grace periods and both litmus load orders; '
-                  'non-trivial = trace has a delayed reader store and reaches the futex path; builds: memb+membarrier (refinement-checked), memb fallback, mb')
+                  'non-trivial = trace has a delayed reader store and reaches the futex path; builds: memb+membarrier (refinement-checked against GpExec), mb (refinement-checked against GpMbExec), memb fallback, qsbr')
 def replay(ctx, rp):
     f = rp.get('failing_input') or {}
     if not f: print('nothing to replay'); return 2
